@@ -36,6 +36,7 @@ type encProtoCase struct {
 	Prefix []int  `json:"prefix"` // first operations; the case enumerates every continuation up to Depth
 	Depth  int    `json:"depth"`
 	Seq    []int  `json:"seq,omitempty"`  // replay: exactly this sequence
+	Fault  bool   `json:"fault,omitempty"` // error-path alphabet: {Load, Compute, Write, Write with the 1st / 2nd file write torn, a:=short, a:=long}
 	Disk   bool   `json:"disk,omitempty"` // exported constructor on a real directory (else the same object on the owned in-memory filesystem)
 }
 
@@ -49,13 +50,28 @@ const (
 	epBDel
 	epBRestore
 	epNOps
+	// only in the fault alphabet (in-memory runs): a Write whose k-th file write fails half-way
+	epWriteFail1 = epNOps
+	epWriteFail2 = epNOps + 1
 )
 
-var epNames = []string{"Load", "Compute", "Write", "a:=short", "a:=long", "a:=orig", "b:=deleted", "b:=restored"}
+// epFaultAlphabet: the operations of the error-path search.
+var epFaultAlphabet = []int{epLoad, epCompute, epWrite, epWriteFail1, epWriteFail2, epAShort, epALong}
+
+var epNames = []string{"Load", "Compute", "Write", "a:=short", "a:=long", "a:=orig", "b:=deleted", "b:=restored", "Write(1st file write torn)", "Write(2nd file write torn)"}
 
 var encProtoSeq int
 
 func encProtoGen(g *core.Gen, fmtName string, depth int, disk bool, emit func(*encProtoCase)) {
+	if !disk {
+		// error paths: a Write interrupted by a torn file write, then whatever follows on the same object
+		fd := depth - 1
+		for _, a := range epFaultAlphabet {
+			for _, b := range epFaultAlphabet {
+				emit(&encProtoCase{Kind: "encproto", Fmt: fmtName, Prefix: []int{a, b}, Depth: fd, Fault: true})
+			}
+		}
+	}
 	for a := 0; a < epNOps; a++ {
 		for b := 0; b < epNOps; b++ {
 			emit(&encProtoCase{Kind: "encproto", Fmt: fmtName, Prefix: []int{a, b}, Depth: depth, Disk: disk})
@@ -79,7 +95,14 @@ func encProtoRun(c *encProtoCase, r *core.Rec, wrap func(*encProtoCase) interfac
 			}
 			return
 		}
-		for op := 0; op < epNOps; op++ {
+		alphabet := epFaultAlphabet
+		if !c.Fault {
+			alphabet = nil
+			for op := 0; op < epNOps; op++ {
+				alphabet = append(alphabet, op)
+			}
+		}
+		for _, op := range alphabet {
 			seq = append(seq, op)
 			rec()
 			seq = seq[:len(seq)-1]
@@ -149,7 +172,7 @@ func encProtoOne(c *encProtoCase, seq []int, r *core.Rec, wrap func(*encProtoCas
 		for _, o := range seq {
 			ops = append(ops, epNames[o])
 		}
-		r.ViolateWith(sig, fmt.Sprintf(f, a...)+"\nsequence: "+strings.Join(ops, ", "), wrap(&encProtoCase{Kind: "encproto", Fmt: c.Fmt, Seq: append([]int{}, seq...), Disk: c.Disk}))
+		r.ViolateWith(sig, fmt.Sprintf(f, a...)+"\nsequence: "+strings.Join(ops, ", "), wrap(&encProtoCase{Kind: "encproto", Fmt: c.Fmt, Seq: append([]int{}, seq...), Disk: c.Disk, Fault: c.Fault}))
 	}
 	const volumes, blocks = 2, 3
 	var e1 *par1.Encoder
@@ -243,11 +266,23 @@ func encProtoOne(c *encProtoCase, seq []int, r *core.Rec, wrap func(*encProtoCas
 			}
 			computed = wellFormed && cerr == nil
 			key += fmt.Sprintf("C%v", cerr == nil)
-		case epWrite:
+		case epWrite, epWriteFail1, epWriteFail2:
 			for old := range outputs() {
 				removeFile(old)
 			}
 			var werr error
+			if op != epWrite && mem != nil {
+				k, failAt := 0, 1+op-epWriteFail1
+				mem.Hook = func(index int, kind, path string, data []byte) *envfs.Fault {
+					if kind == "write" {
+						k++
+						if k == failAt {
+							return &envfs.Fault{Err: envfs.ErrInjected, Partial: len(data) / 2, Kind: "torn-write"}
+						}
+					}
+					return nil
+				}
+			}
 			pi := core.Catch(func() {
 				if e1 != nil {
 					werr = e1.Write(index)
@@ -256,6 +291,9 @@ func encProtoOne(c *encProtoCase, seq []int, r *core.Rec, wrap func(*encProtoCas
 				}
 			})
 			judged := lastLoadOK && computed
+			if mem != nil {
+				mem.Hook = nil
+			}
 			if pi != nil {
 				if judged {
 					viol("encoder-protocol:write-panic:"+pi.Frame, "%s", pi.Value)
@@ -263,6 +301,16 @@ func encProtoOne(c *encProtoCase, seq []int, r *core.Rec, wrap func(*encProtoCas
 				}
 				r.Count("encproto_panic_outside_wellformed_use", 1)
 				return
+			}
+			if op != epWrite {
+				// the interrupted Write: it must report the failure; what it left on disk is judged by C13 / C18
+				if judged && werr == nil {
+					viol("encoder-protocol:torn-write-not-reported", "a file write of this Write failed half-way, but Write returned nil")
+					return
+				}
+				key += "Wf"
+				r.Count("encproto_interrupted_writes", 1)
+				continue
 			}
 			key += fmt.Sprintf("W%v", werr == nil)
 			if !judged {
